@@ -83,6 +83,8 @@ pub struct MSpan {
     pub atts: Vec<Att>,
     pub held_by: Option<u32>,
     pub submit_send: Option<SendRef>,
+    /// target of Fill operations: its events are not checked
+    pub filler: bool,
 }
 
 #[derive(Clone, Debug)]
@@ -296,6 +298,7 @@ impl Model {
                 atts: vec![],
                 held_by: None,
                 submit_send: None,
+                filler: false,
             },
         );
     }
@@ -716,6 +719,15 @@ impl Model {
                 }
             }
             Op::Sleep { .. } => {}
+            Op::Fill { span, n } => {
+                let sp = self.spans.get_mut(span).unwrap();
+                sp.filler = true;
+                if sp.inner && sp.items.iter().any(|i| i.sampled) {
+                    for _ in 0..*n {
+                        self.send(SendKind::Submit, false);
+                    }
+                }
+            }
             Op::Exit => {
                 debug_assert!(self.threads[t].frames.is_empty());
                 self.threads[t].os_gen += 1;
